@@ -816,6 +816,9 @@ func (fr *Frame) derefGuard(st *State, p *Term, ins ssa.Instruction, what string
 
 func (fr *Frame) safety(st *State, kind string, cond *Term, ins ssa.Instruction, what string) {
 	vc := fr.vc
+	if vc.pure > 0 {
+		return // inside a quantified (pure) evaluation the operands mention bound variables
+	}
 	pos := fr.fn.Prog.Fset.Position(ins.Pos())
 	// site identity: function + kind + ordinal of that kind in the function
 	fr.vc.eng.siteN[fr.fn.String()+kind]++
@@ -1504,13 +1507,15 @@ func (fr *Frame) typeAssert(x *ssa.TypeAssert, st *State) {
 
 // implFacts asserts, for every concrete type with a known tag, whether it implements iface.
 func (vc *VC) implFacts(iface types.Type, id int) {
-	key := fmt.Sprintf("impl:%d", id)
-	if vc.declSeen[key] {
-		return
-	}
-	vc.declSeen[key] = true
+	// types are tagged lazily, so the table is completed on every use (never depends on which
+	// functions the engine happened to analyse before)
 	it := iface.Underlying().(*types.Interface)
 	for _, tt := range vc.eng.tagTypes() {
+		key := fmt.Sprintf("impl:%d:%d", id, tt.tag)
+		if vc.declSeen[key] {
+			continue
+		}
+		vc.declSeen[key] = true
 		v := "false"
 		if types.Implements(tt.t, it) {
 			v = "true"
